@@ -78,7 +78,7 @@
 
     // ---- the ~60 call sites in the VM and the argument converters are G-VM: BOUNDED native stand-in on the real
     // engine over a set of use sites x 4 modes x {missing, present} contexts
-//# ob name=undef_vm_native role=native_bounded fn=vm::eval_impl+value::argtypes kind=bounded bound="10 ways an undefined comes about (missing name / attribute / item / namespace attribute / out-of-range index / attribute of a scalar / silent undefined of an else-less inline if) x 18 use sites x 3 environment variants (default, custom formatter installed, HTML auto-escape) x 4 modes, and 30 template use sites of a possibly-undefined name (print, iterate, truth tests in if/and/or/not/ternary, attribute, item, slice, in, ~, +, filter argument, test, default, call argument, set, macro argument) x 4 undefined behaviours x {name missing, name present}" stmt="the documented matrix at the level of rendered templates, and monotonicity: a template that renders under a stricter mode renders to the identical output under every weaker mode; is defined / is undefined / default never fail"
+//# ob name=undef_vm_native role=native_bounded fn=vm::eval_impl+value::argtypes kind=bounded bound="10 ways an undefined comes about (missing name / attribute / item / namespace attribute / out-of-range index / attribute of a scalar / silent undefined of an else-less inline if) x 18 use sites of the documented matrix + 46 further use sites (operators, comparisons, membership on either side, filters, tests, unpacking, slices) for which only monotonicity is demanded x 3 environment variants (default, custom formatter installed, HTML auto-escape) x 4 modes, and 30 template use sites of a possibly-undefined name (print, iterate, truth tests in if/and/or/not/ternary, attribute, item, slice, in, ~, +, filter argument, test, default, call argument, set, macro argument) x 4 undefined behaviours x {name missing, name present}" stmt="the documented matrix at the level of rendered templates, and monotonicity: a template that renders under a stricter mode renders to the identical output under every weaker mode; is defined / is undefined / default never fail"
     fn undef_vm_native() {
         use crate::{Environment, UndefinedBehavior as UB};
         let modes = [UB::Strict, UB::SemiStrict, UB::Lenient, UB::Chainable];
@@ -161,6 +161,17 @@
             ("{% if U.y %}y{% else %}n{% endif %}", 0b0111, 0b0111), ("{% set q = U %}{{ q.y }}", 0b0111, 0b0111), ("{% set q = U %}{{ q['y'] is defined }}", 0b0111, 0b0111),
             ("{{ U is defined }}", 0, 0), ("{{ U is undefined }}", 0, 0), ("{{ U|default('d') }}", 0, 0), ("{{ U ~ 'a' }}", 0b0011, 0), ("{{ U|upper }}", 0b0011, 0), ("{{ 1 in U }}", 0b0011, 0),
             ("{% macro show(a) %}{{ a }}{% endmacro %}{{ show(U) }}", 0b0011, 0),
+            // sites the documented matrix does not name (mask 0xFF): only "strictness only adds errors, never changes an
+            // output" is demanded - operators, comparisons, membership with the undefined on either side, tests, unpacking
+            ("{{ U in 'abc' }}", 0xFF, 0xFF), ("{{ U in [1, 2] }}", 0xFF, 0xFF), ("{{ U not in 'abc' }}", 0xFF, 0xFF), ("{{ U in [U] }}", 0xFF, 0xFF), ("{{ U in {'a': 1} }}", 0xFF, 0xFF),
+            ("{% if U in 'abc' %}y{% else %}n{% endif %}", 0xFF, 0xFF), ("{{ U is in('abc') }}", 0xFF, 0xFF), ("{{ 'abc' is in(U) }}", 0xFF, 0xFF),
+            ("{{ U == 1 }}", 0xFF, 0xFF), ("{{ U != U }}", 0xFF, 0xFF), ("{{ U < 1 }}", 0xFF, 0xFF), ("{{ 1 <= U }}", 0xFF, 0xFF), ("{{ 1 < U < 3 }}", 0xFF, 0xFF), ("{{ U == none }}", 0xFF, 0xFF),
+            ("{{ U + 1 }}", 0xFF, 0xFF), ("{{ 2 * U }}", 0xFF, 0xFF), ("{{ -U }}", 0xFF, 0xFF), ("{{ 'a' ~ U }}", 0xFF, 0xFF), ("{{ U and 1 }}", 0xFF, 0xFF), ("{{ 0 or U }}", 0xFF, 0xFF), ("{{ not U }}", 0xFF, 0xFF),
+            ("{{ U|length }}", 0xFF, 0xFF), ("{{ U|list }}", 0xFF, 0xFF), ("{{ U|string }}", 0xFF, 0xFF), ("{{ U|int }}", 0xFF, 0xFF), ("{{ U|join(',') }}", 0xFF, 0xFF), ("{{ [U]|join(',') }}", 0xFF, 0xFF),
+            ("{{ [1, U]|select|list }}", 0xFF, 0xFF), ("{{ U|first }}", 0xFF, 0xFF), ("{{ [U]|sort }}", 0xFF, 0xFF), ("{{ '%s'|format(U) }}", 0xFF, 0xFF), ("{{ U|tojson }}", 0xFF, 0xFF), ("{{ {'k': U}|items|list }}", 0xFF, 0xFF),
+            ("{{ U is none }}", 0xFF, 0xFF), ("{{ U is number }}", 0xFF, 0xFF), ("{{ U is eq(1) }}", 0xFF, 0xFF), ("{{ U is sameas(U) }}", 0xFF, 0xFF), ("{{ U is true }}", 0xFF, 0xFF),
+            ("{% set a, b = [U, 1] %}{{ b }}", 0xFF, 0xFF), ("{% for a, b in [[U, 1]] %}{{ b }}{% endfor %}", 0xFF, 0xFF), ("{{ range(3)[U:] }}", 0xFF, 0xFF), ("{{ 'abc'[U] }}", 0xFF, 0xFF),
+            ("{{ loop.cycle(U) if false }}", 0xFF, 0xFF), ("{% for i in [1] %}{{ loop.changed(U) }}{% endfor %}", 0xFF, 0xFF), ("{{ dict(a=U)|length }}", 0xFF, 0xFF), ("{{ U if true else 1 }}", 0xFF, 0xFF),
         ];
         for variant in 0..3u8 {
             for (sources, silent) in [(&normal_sources[..], false), (&silent_sources[..], true)] { for source in sources { for (site, m_normal, m_silent) in use_sites {
@@ -177,9 +188,11 @@
                     }
                     let r = env.render_named_str("u.txt", &src, crate::context! { other => crate::context! { a => 1 } });
                     let should_fail = fails & (1 << mi) != 0;
-                    match &r {
-                        Ok(o) => assert!(!should_fail, "{src} (env variant {variant}) must fail under {m:?} but rendered {o:?}"),
-                        Err(e) => assert!(should_fail, "{src} (env variant {variant}) must not fail under {m:?}: {e}"),
+                    if fails != 0xFF {
+                        match &r {
+                            Ok(o) => assert!(!should_fail, "{src} (env variant {variant}) must fail under {m:?} but rendered {o:?}"),
+                            Err(e) => assert!(should_fail, "{src} (env variant {variant}) must not fail under {m:?}: {e}"),
+                        }
                     }
                     outs.push(r.ok());
                 }
